@@ -71,13 +71,21 @@ def expo(argnode, sign=1):
     """exp(i * sign * arg) as a single-key poly"""
     poly = X.to_poly(argnode)
     key = {}
+    unit = (F(1), F(0))
     for m, c in poly.items():
         if c[1] != 0:
             raise AnalysisError('complex trig argument')
         if m == ():
             raise AnalysisError('constant offset in a trig argument')
+        if len(m) == 1 and m[0][1] == 1 and m[0][0][0] == 'a' and X.node_by_uid(m[0][0][1]).val[0] == 'pi':
+            # an offset c*pi: exp(i c pi) is exact for multiples of pi/2
+            q = c[0] * sign * 2
+            if q.denominator != 1:
+                raise AnalysisError('offset in a trig argument that is not a multiple of pi/2')
+            unit = [(F(1), F(0)), (F(0), F(1)), (F(-1), F(0)), (F(0), F(-1))][int(q) % 4]
+            continue
         key[m] = c[0] * sign
-    return {tuple(sorted(key.items())): (F(1), F(0))}
+    return {tuple(sorted(key.items())): unit}
 
 
 def to_trig(node, memo=None, env=None):
